@@ -42,7 +42,7 @@ class IntegerNode(BaseNode, SelectNode):
         """
         if value is None and self.value_raw:
             self.value = IntegerType(self.cast_value(), self.units_raw, precision=self.precision, unsigned=self.unsigned)
-        elif value:
+        elif value is not None:
             self.value = IntegerType(value, self.units_raw, precision=self.precision, unsigned=self.unsigned)
         else:
             self.value = None
